@@ -488,7 +488,7 @@ BaseAggs == IF Profile = "small" THEN {Agg("struct", "s1")}
             ELSE {Agg("struct", "s1"), Agg("struct", "s2"), Agg("struct", "op"), Agg("union", "u1"),
                   Agg("enum", "e1")}
 Base == {P(n) : n \in BasePrims} \cup {Void} \cup BaseAggs
-Lens == IF Profile \in {"small", "mid"} THEN {Open, 3} ELSE {Open, 3, 16, 2}
+Lens == IF Profile \in {"small", "mid"} THEN {Open, 16} ELSE {Open, 3, 16, 2}
 ArgLists == IF Profile \in {"small", "mid"}
             THEN {<< << >>, FALSE >>, << <<P("int")>>, FALSE >>, << <<P("int")>>, TRUE >>,
                   << <<Ptr(P("char")), Agg("struct", "s1")>>, FALSE >>}
